@@ -44,7 +44,7 @@ def run(tier):
         docs_.append(("root:%d" % j, text, loads_p(text)))
     for di, (tid, text, d) in enumerate(docs_):
         is_corpus = tid.startswith("corpus")
-        use = cover if (quick or is_corpus) else sets
+        use = cover if (quick or is_corpus or tid.startswith("commented")) else sets
         for oi, o in enumerate(use):
             if o["nl"] == "SP":
                 continue                      # the per-line rules need line breaks
